@@ -1,6 +1,7 @@
 import GB.Base.Proto
 import GB.C10.Spec
 import GB.C10.Options
+import GB.C10.CreateStatus
 /-
   C10 driver — judges one case line of harness/c10 (see that file for the line formats).
     tbl <code> => <http>
@@ -491,6 +492,7 @@ def handleOpts (i o : List String) : String :=
       else
         let why :=
           if st == 415 && (negotiatedReq rs pm).isSome then "registered-type-refused-415"
+          else if es.status == 415 && st != 415 then "unsupported-content-type-not-refused-415"
           else if acceptNamed.isSome && (obsCt != es.ct || codec != es.codec) then "accept-ignored"
           else if isFail && (obsCt != es.ct || codec != es.codec) then "error-body-wrong-codec"
           else if isFail && st == es.status && ds != es.ds then "error-body-not-decodable-with-negotiated-codec"
@@ -521,6 +523,62 @@ def handleStrag (i o : List String) : String :=
     | _, _, _, _, _, _ => "BAD strag fields"
   | _, _ => "BAD strag arity"
 
+/-! ### create: failures while the outgoing stream is created, with the real AdaptedClientConn -/
+
+/-- expected gRPC code of `AdaptedClientConn.Stream`'s answer, from the C16 model (clock unit: one quarter of the
+    deadline, D = 4, called at 0, outgoing metadata installed by `baseContext`): `none` = a stream -/
+def createModelCode (mode : String) : Option (Option Nat) :=
+  let ctx : GB.C16.Conn.Ctx := { deadline := some 4, outMD := true }
+  let avail : Option GB.C16.Conn.Avail :=
+    if mode == "ready" then some (.readyAt 0)
+    else if mode == "hang" then some .connecting
+    else if mode == "refuse" then some .refusing
+    else if mode.startsWith "hold" then (mode.drop 4).toString.toNat?.map .readyAt
+    else none
+  avail.map (fun a => createCode (GB.C16.Conn.streamOpen 0 ctx a))
+
+def handleCreate (i o : List String) : String :=
+  match i, o with
+  | [mode, _d, rpc], [st, ct, ds, dm, ac, _q, late] =>
+    match kv? "mode" mode, kv? "rpc" rpc, (kv? "st" st) >>= String.toNat?, (kv? "ct" ct) >>= optHexList?, kv? "ds" ds,
+          kv? "dm" dm, kv? "ac" ac, kv? "late" late with
+    | some mode, some rpc, some st, some ct, some ds, some dm, some ac, some late =>
+      if late != "0" then s!"VIOL write-after-return late={late}" else
+      let dsCode : Option Nat := (ds.splitOn ":").head?.bind String.toNat?
+      let okDm := if rpc == "s" then s!"nl|m:{toHex (ascii "n")}:{toHex (ascii "o")}" else s!"m:{toHex (ascii "n")}:{toHex (ascii "o")}"
+      -- rendering, judged with C10's table on the code the adapter really returned (C10_stream_creation_status)
+      let renderViol : Option String :=
+        match ac.toNat? with
+        | some c =>
+          if mode == "cancel" then (if st == 499 && ct.isNone then none else some "client-gone-not-499")
+          else if st != canonicalHttp c then some s!"stream-creation-status-not-canonical-for-code-{c}"
+          else if ct != some [mimeJSON] || dsCode != some c then some s!"stream-creation-status-body-not-code-{c}"
+          else none
+        | none => if ac == "ok" then (if st == 200 && dm == okDm then none else some "success-after-stream-creation") else some "no-stream-call"
+      -- the adapter's code, expected from the C16 model of Stream (or fixed for the Close / cancel cells)
+      let wantCodes : List (Option Nat) :=
+        if mode == "closed" then [some cUnavailable]
+        else if mode == "closing" then [some 1, some cUnavailable]     -- gRPC's closing error (Canceled) or Unavailable
+        else if mode == "cancel" then [some 1]
+        else match createModelCode mode with
+          | some x => [x]
+          | none => []
+      let acCode : Option Nat := ac.toNat?
+      let codeOk := (ac == "ok" && wantCodes.contains none) || (acCode.isSome && wantCodes.contains acCode)
+      match renderViol with
+      | some v => s!"VIOL {v} st={st} ds={ds} ac={ac}"
+      | none =>
+        if wantCodes.isEmpty then "BAD create mode"
+        else if !codeOk then
+          -- the property's cell: a deadline during stream creation is DeadlineExceeded ⇒ 504
+          if wantCodes == [some cDeadlineExceeded] then
+            s!"VIOL deadline-during-stream-creation-not-504 st={st} code={ac} (C16 model of Stream: DeadlineExceeded; table: 504)"
+          else if wantCodes == [some cUnavailable] then s!"VIOL stream-creation-refused-not-503 st={st} code={ac}"
+          else s!"DIFF adapter code={ac} model={wantCodes}"
+        else s!"OK nt b=create.{mode}"
+    | _, _, _, _, _, _, _, _ => "BAD create fields"
+  | _, _ => "BAD create arity"
+
 def handle : Handler
   | ["tbl", c], [out] => handleTbl c out
   | "cvt" :: [e], out => handleCvt e out
@@ -538,6 +596,11 @@ def handle : Handler
   | "strag" :: _, "HANG" :: why => s!"VIOL hang {" ".intercalate (why.map (fun h => (parseHex h).map bytesToString |>.getD h))}"
   | "strag" :: _, "PANIC" :: why => s!"VIOL panic {" ".intercalate (why.map (fun h => (parseHex h).map bytesToString |>.getD h))}"
   | "strag" :: i, o => handleStrag i o
+  | "create" :: _, "CRASH" :: why => s!"VIOL process-crash {" ".intercalate (why.map (fun h => (parseHex h).map bytesToString |>.getD h))}"
+  | "create" :: _, "HANG" :: why => s!"VIOL hang {" ".intercalate (why.map (fun h => (parseHex h).map bytesToString |>.getD h))}"
+  | "create" :: _, "PANIC" :: why => s!"VIOL panic {" ".intercalate (why.map (fun h => (parseHex h).map bytesToString |>.getD h))}"
+  | "create" :: _, "SETUP" :: why => s!"BAD create setup {" ".intercalate why}"
+  | "create" :: i, o => handleCreate i o
   | _, _ => "BAD c10 line"
 
 end GB.C10
